@@ -25,6 +25,21 @@ WORLD_NOTE = ('Modelled not verified: the dependency check inside BoundRoute.__i
               'application and of every Route object look for. ')
 
 CLAIMED = {
+ 'C17': dict(
+   text=('Theorems (Props/C17.v) over Model/Render.v (branch structure of BasicRender.render_response / _serialize_to_resp / '
+         '_guess_json and ClasticJSONEncoder.default over a universe of Python values of any nesting depth): render_basic yields a '
+         'response for every value and every request whose format parameter is absent, json or html, whatever the negotiation '
+         'yields; text/bytes: serialized JSON object/array => application/json, an HTML document in the first 168 bytes => '
+         'text/html, otherwise text/plain, sent unchanged; mappings and sequences => JSON, or the table when HTML is asked for; '
+         'unsized values => str() as text/plain; the encoder passes JSON-native data through unchanged and in dev mode never '
+         'raises (unknown objects degrade to repr). Tie: generated values through real routes with render_basic, render_json, '
+         'render_json_dev, streaming JSON, JSONP; Content-Type and parsed bodies compared with the extracted model; JSON-native '
+         'data must parse back to the original value.'),
+   note=COMMON_NOTE + 'Modelled not verified: stdlib json (number/string formatting; premise: emits valid JSON that round-trips native '
+        'data), boltons Table/TabularRender (premise O10: builds a table for tabular shapes), werkzeug Accept negotiation (best_match '
+        'is an input of the model), dict key handling beyond string keys, circular structures.',
+   technique='Coq proof (nested structural induction over the value universe: totality of the dev-mode encoder, identity on JSON-native data, case analysis of the renderer) + extracted-model differential check',
+   design='6/C17'),
  'C09': dict(
    text=('Theorems (Props/C09.v): every exported error class carries the standard status code of its name (class table '
          'REGENERATED from errors.py, checked against an RFC table inside Coq); html_escape output contains no angle bracket or '
